@@ -141,6 +141,35 @@ CLAIMED["C10"] = dict(
     note=_MH_NOTE, technique="Lean 4 proof over hand-written model + differential correspondence per family",
     engine="MultiHash", ref="5 C10")
 
+CLAIMED["C08"] = dict(
+    text="Partial by nature. Proved (Lean 4): the index arithmetic of the C glue and of the models - partial-block "
+         "buffer holds < one block between calls (from the reachable-state invariant), hash_pad hands out one or two "
+         "blocks of exactly BLOCK_SIZE bytes from the 2*BLOCK_SIZE buffer (64- and 128-byte algorithms), lane jobs are "
+         "whole blocks of the caller segment, GCM/XTS output exactly len bytes and tag_len tag bytes, rolling run "
+         "offset <= max_len (C09_run). Decided by enumeration, not proof: accesses of the assembly kernels - every "
+         "data/key/IV/tweak/tag/AAD buffer of every hash and AES family entry point placed flush against a PROT_NONE "
+         "page (end-flush and start-flush), canaries on the other side, incl. CBC len=0. Found and fixed F12; F5 (C09) "
+         "was also an over-read.",
+    note="Trusted: Lean kernel + standard axioms; harness/guard.h. A wide vector load inside a kernel is invisible to "
+         "the models: only the guard pages see it, for the length/alignment classes generated (not exhaustive in quick). "
+         "Manager/context/key-data objects keep their alignment contracts and are covered by canaries only.",
+    technique="Lean 4 proof of model index bounds + guard-page differential enumeration for the assembly",
+    engine="HashMB/AES", ref="5 C08")
+CLAIMED["C20"] = dict(
+    text="Proof (Lean 4), noninterference on the models that carry API-undefined state as explicit parameters: hash - "
+         "two executions of any history from managers whose contexts held different garbage agree on every API-defined "
+         "field (C20_hash, via C01/C15), FIRST defines digest/total/partial before any read; GCM - result and every "
+         "API-defined context field after any update sequence are independent of what GCM_INIT left in "
+         "partial_block_enc_key (C20_gcm, C20_gcm_context, C20_gcm_update), for both protocol variants. Tie: every hash "
+         "manager and AES family entry point executed twice on the same op stream with differently poisoned object "
+         "memory and, through harness/tramp.asm, differently poisoned caller-saved GPRs, zmm0-31, k1-k7, flags and "
+         "64 KiB of dead stack: result streams identical to each other and to the model.",
+    note="Trusted: Lean kernel + standard axioms; harness/tramp.asm. 32-bit arguments are passed zero-extended (several "
+         "asm routines use them as 64-bit quantities) - recorded assumption. mh/rolling drivers: memory poisoning only. "
+         "The static 'no read of an undefined register' rule of DESIGN.md is not built.",
+    technique="Lean 4 noninterference proof over hand-written models + paired poisoned executions",
+    engine="HashMB/AES", ref="5 C20")
+
 REASON_TODO = "check not built yet in this session (work in progress, see DESIGN.md status section)"
 
 props = [json.loads(l) for l in open(os.path.join(V, "properties.jsonl"))]
